@@ -340,7 +340,13 @@ class Program:
                 op["volumes"] = enc(float(op["volumes"]))
                 op["intent"] = "reject.oversize"
                 return op
-            return g.gen_addremove(sess, kind, intent=intent)
+            op = g.gen_addremove(sess, kind, intent=intent)
+            if kind == "dispense" and isinstance(op.get("wells"), list) and len(op["wells"]) > 1 and rng.random() < 0.1:
+                # one composition for several wells: a form the library refuses (the lengths must pair up)
+                from ..sim.gen import dyadic_composition
+                from ..sim.geom import enc
+                op["comps"] = [enc(dyadic_composition(rng))]
+            return op
         kind = rng.choice(["evo_aspirate", "evo_dispense"])
         if intent == "reject.underflow":
             kind = "evo_aspirate"
@@ -361,6 +367,10 @@ class Program:
                 v = big
             op["volumes"] = enc(v)
             op["intent"] = "reject.oversize"
+        if kind == "evo_dispense" and isinstance(op.get("wells"), list) and len(op["wells"]) > 1 and rng.random() < 0.08:
+            from ..sim.gen import dyadic_composition
+            from ..sim.geom import enc
+            op["comps"] = [enc(dyadic_composition(rng))]
         if isinstance(op["volumes"], list) and rng.random() < (0.4 if oversize else 0.05):
             # per-tip volumes as a tuple / ndarray: an argument form the library refuses (ValueError)
             op["vform"] = rng.choice(["tuple", "ndarray"])
